@@ -50,7 +50,7 @@ func init() {
 	prop("C08", []string{"W-RENDER-STORES", "W-IMPORTS-WRITERS", "P-REGISTER", "P-FRAGMENT", "P-GROUPRENDER", "P-DOT-STABLE", "P-MAPRANGE@@!registration function"},
 		"Nothing reachable from any render / isNull implementation or render entry point stores to memory that existed before the call, except new File.imports entries made by the registration function (mod-ref summaries over the module call graph); File.imports is never reset, deleted from or re-assigned; the registration function returns the stored name for a known path before consulting hints, and the dot-import test answers from the import table for such a path; fragment renders use the caller's File; the brace-less case-block form is chosen per render from local copies.",
 		"byte equality of successive renders additionally relies on C07's clauses and on the determinism of the standard library")
-	prop("C09", []string{"W-GLOBALS-RO", "W-NO-CONCURRENCY", "W-RENDER-STORES", "W-NONDET-API", "W-FILE-ARGS"},
+	prop("C09", []string{"W-GLOBALS-RO", "W-NO-CONCURRENCY", "W-RENDER-STORES", "W-NONDET-API", "W-FILE-ARGS", "P-API-FORMS@Statement form appends to its receiver in place"},
 		"No hidden global state: every package-level variable of jen is only read (no store, map update, element store or address escape), jen uses no goroutines, channels, sync, atomic, unsafe or reflect, and every store on the render path goes to the writer, fresh memory or the File's own import table — so Files that share no Code values touch disjoint memory and a File's output depends on that File alone.",
 		"data-race freedom inside the standard library (taken from its documentation); two goroutines mutating one shared Code value through the builder API")
 	prop("C10", []string{"P-ATOMIC-WRITE", "P-ERR-PROP", "W-FS-EFFECTS", "P-FORMAT-GATE"},
@@ -80,7 +80,7 @@ func init() {
 	prop("C18", []string{"T-STDHINTS", "P-REGISTER", "T-GENNAMES", "W-IMPORTS-WRITERS", "P-IMPORTBLOCK"},
 		"Every entry of the standard-library table whose package is importable equals the package clause parsed from GOROOT/src of the installed toolchain (exhaustive over the table); a table hit may be stored without alias, a guessed name never; gennames reads the go-list fields back from the positions its template wrote them to and emits path: name.",
 		"the output of actually running gennames (it shells out to `go list`); packages newer than the table get a guessed alias, which the property allows")
-	prop("C19", []string{"P-REGISTER", "P-IMPORTBLOCK", "P-FILERENDER-ORDER"},
+	prop("C19", []string{"P-REGISTER", "P-IMPORTBLOCK", "P-FILERENDER-ORDER", "P-RENDERITEMS@every package token among the items is registered"},
 		"The \"C\" branch of registration stores {\"C\", no alias} and returns C; hint lookup, prefix and numbering happen only on paths with path ≠ \"C\"; no import line prints an alias for \"C\"; \"C\" is left out of the main block only when a preamble exists; each preamble comment is followed by exactly one newline and `import \"C\"` is written directly after the last one, after the main block.",
 		"cgo's own parsing of the preamble")
 	prop("C20", []string{"P-CLONE", "P-API-FORMS", "W-RENDER-STORES@append"},
